@@ -13,7 +13,10 @@ func vFe(name string) field.Element {
 
 // vElement returns an element whose three projective coordinates are arbitrary field values.
 func vElement(name string) *Element {
-	return &Element{x: vFe(name + "x"), y: vFe(name + "y"), z: vFe(name + "z")}
+	e := &Element{}
+	vHavoc(e, name) // whatever else an Element may hold besides its coordinates is arbitrary
+	e.x, e.y, e.z = vFe(name+"x"), vFe(name+"y"), vFe(name+"z")
+	return e
 }
 
 func vObserveEl(name string, e *Element) {
